@@ -97,7 +97,7 @@ def helpers(ctx, N, d):
 def replay_case(ctx, case):
     ctx.pairs = 0
     if case.get('reconstruct'):
-        return reconstruct_fails(case['N'], case['d'])
+        return reconstruct_fails(case['N'], case['d']) or reconstruct_fails(case['N'], case['d'], 'bool') or reconstruct_fails(case['N'], case['d'], 'int32')
     if case.get('cold_start'):
         import importlib
         importlib.reload(ei)
@@ -111,13 +111,16 @@ def replay_case(ctx, case):
     return check_nd(ctx, case['N'], case['d']) or helpers(ctx, case['N'], case['d'])
 
 
-def reconstruct_fails(N, d):
+def reconstruct_fails(N, d, kind='float'):
     """the consequence the property states: Gamma times the d-th Taylor coefficients along the rays gives the partial
     derivatives divided by the multi-index factorial -- for every monomial of degree d (exact integer data), and the full
     derivative array holds each of them at EVERY permutation of its index tuple"""
     import itertools
     mi = ei.generate_multi_indices(N, d)
     x0 = np.arange(1, N + 1, dtype=float) * 0.5
+    if kind != 'float':
+        # the point given in an integer / boolean type: the rays written into the seed must still be the generated ray set
+        x0 = (np.arange(1, N + 1) % 2).astype(kind)
     for a_i, alpha in enumerate(mi):
         def f(x):
             t = 1.0
@@ -174,7 +177,7 @@ def run(ctx):
         ctx.evaluations += 1
         ctx.count('reconstruct')
         try:
-            f = reconstruct_fails(N, d)
+            f = reconstruct_fails(N, d) or reconstruct_fails(N, d, 'bool') or reconstruct_fails(N, d, 'int32')
         except Exception as ex:
             f = 'reconstruct-exception-N%d-d%d: %s' % (N, d, type(ex).__name__ + ':' + str(ex)[:80])
         if f:
